@@ -624,7 +624,23 @@ func (fr *Frame) sliceOp(x *ssa.Slice, pc *string, st *State) {
 			mx = fr.v1(x.Max)
 		}
 		*pc = fr.safety("index", x, *pc, fmt.Sprintf("(and (<= 0 %s) (<= %s %s) (<= %s (s.cap %s)))", lo, lo, hi, hi, s))
-		fr.set(x, x.Type(), fmt.Sprintf("(mk-slice (s.arr %s) (+ (s.off %s) %s) (- %s %s) (- %s %s))", s, s, lo, hi, lo, mx, lo))
+		off := fmt.Sprintf("(+ (s.off %s) %s)", s, lo)
+		if p := slParts(s); p != nil {
+			if p[1] == "0" {
+				off = lo
+			} else if lo == "0" {
+				off = p[1]
+			} else {
+				off = fmt.Sprintf("(+ %s %s)", p[1], lo)
+			}
+			if hi == fmt.Sprintf("(s.len %s)", s) {
+				hi = p[2]
+			}
+			if mx == fmt.Sprintf("(s.cap %s)", s) {
+				mx = p[3]
+			}
+		}
+		fr.set(x, x.Type(), fmt.Sprintf("(mk-slice %s %s (- %s %s) (- %s %s))", slArr(s), off, hi, lo, mx, lo))
 		_ = u
 	case *types.Pointer:
 		arr := u.Elem().Underlying().(*types.Array)
